@@ -55,3 +55,19 @@ Definition reloaded_table (d : doc) : doc :=
      d_trailer := norm_dict (trailer_table d);
      d_objects := norm_objects (d_objects d);
      d_max_id := last_number (d_objects d) |}.
+
+(* the cross-reference STREAM format: what write_cross_reference_stream produced (trailer after its updates,
+   stream content, final map), the cross-reference stream object as the loader parses it, and the document
+   that comes back: the objects, plus that stream object itself under the number max_id + 1 (the xref map
+   lists it and read_entries loads it like any other object -- cross-reference bookkeeping), the trailer
+   = the stream dictionary after decode_xref_stream's three removals, and max_id + 1. *)
+Definition xstream_of (d : doc) : dict * bytes * Save.xmap :=
+  xstream_parts d (xmap_of d) (Save.blen (body_of d) mod u32_mod).
+Definition xstream_obj (d : doc) : obj :=
+  OStream (norm_dict (fst (fst (xstream_of d)))) (snd (fst (xstream_of d))).
+Definition reloaded_stream (d : doc) : doc :=
+  {| d_version := d_version d; d_binary_mark := d_binary_mark d;
+     d_trailer := dict_swap_remove (dict_swap_remove (dict_swap_remove
+                    (norm_dict (fst (fst (xstream_of d)))) K_Length) Save.K_W) Save.K_Index;
+     d_objects := norm_objects (d_objects d) ++ [((d_max_id d + 1, 0), xstream_obj d)];
+     d_max_id := d_max_id d + 1 |}.
